@@ -305,6 +305,8 @@ func newSysB() *sysB {
 	t3 := sk.Transfer(3, ins(f, 1), outs(sk.Out(addrA, 300), sk.Out(addrA, 300), sk.Out(addrA, 400)))
 	add(&bop{name: "fanout", txs: one(t3)})
 	add(&bop{name: "part", txs: one(sk.Transfer(4, ins(t3.Hash(), 0, 2), outs(sk.Out(addrB, 700)))), needs: []string{"fanout"}})
+	// a transaction without inputs and outputs: cached on connect, no unspent entry at all
+	add(&bop{name: "nextturn", txs: one(sk.NextTurn(5, 100))})
 	add(&bop{name: "empty"})
 	b.ids = []common.Uint256{gCb, f, sk.H("no such transaction")}
 	for _, o := range b.ops {
